@@ -122,6 +122,10 @@ def run(res):
             viol.append({"oracle": "no-aliasing", "key": repr(unhex(o)), "loc1": repr(loc[0]), "loc2": repr(bykey[kk])})
         bykey[kk] = loc[0]
 
+    # ---- spellings through a real tree with symlinked directories, from several cwds
+    sym = symlink_part(r, t)
+    viol += sym["violations"]
+    d += sym["disagreements"]
     cov = dict(proof)
     cov.update({
         "trusted_base": ["Coq 8.16.1 kernel (coqc; vm_compute in Examples)", "extraction (ExtrOcamlBasic only) + ocaml/driver.ml",
@@ -137,6 +141,7 @@ def run(res):
                                "with_dotdot": sum(1 for s in allp if b".." in s)},
         "correspondence_disagreements": len(d),
         "oracle_failures": len(viol),
+        "symlink_tree": {k: v for k, v in sym.items() if k not in ("violations", "disagreements")},
     })
     res.coverage = cov
     res.assumptions = ["A-CANON: the OS canonicalize() maps two directory spellings to one result iff they are the same directory (parameter `canon` of the model)",
@@ -149,6 +154,84 @@ def run(res):
         res.violation({"property": "C15", "kind": "correspondence", "broken": "model Paths/Norm.v,Rel.v vs redo::{normpath,abs_path,relpath}",
                        "theorems_no_longer_tied": ["C15_idempotent", "C15_denotation", "C15_rejoin", "C15_one_record"],
                        "first_disagreements": d}, found_input=False)
+
+
+def symlink_part(r, t):
+    """Real directory tree with symlinked directories: the database key of
+    every spelling of every file, from every working directory, on the
+    implementation (redo::relpath run in that cwd) and on the model (relpath
+    with the canonicalize() table observed from the OS)."""
+    import shutil, subprocess, tempfile
+    root = tempfile.mkdtemp(prefix="c15-", dir="/var/tmp")
+    out = {"violations": [], "disagreements": [], "cases": 0, "same_file_pairs": 0}
+    try:
+        P = os.path.realpath(root)
+        for dname in ("sub/deep", "other", "a b"):
+            os.makedirs(os.path.join(P, dname))
+        os.symlink("sub/deep", os.path.join(P, "link"))
+        os.symlink(os.path.join(P, "other"), os.path.join(P, "sub", "abs"))
+        os.symlink("..", os.path.join(P, "sub", "deep", "up"))
+        dirs = ["", "sub", "sub/deep", "other", "a b"]
+        files = [("", "q"), ("sub", "q"), ("sub/deep", "r"), ("other", "z"), ("a b", "q")]
+        def spellings(cwd, d, f):
+            absd = os.path.join(P, d) if d else P
+            rel = os.path.relpath(absd, os.path.join(P, cwd) if cwd else P)
+            S = [os.path.join(absd, f), os.path.join(rel, f), "./" + os.path.join(rel, f),
+                 os.path.join(rel, ".", f), os.path.join(rel, "") + "/" + f,
+                 os.path.join(absd, "..", os.path.basename(absd) if d else "", f) if d else os.path.join(P, ".", f)]
+            if d == "sub/deep":
+                S += [os.path.join(P, "link", f), os.path.relpath(os.path.join(P, "link"), os.path.join(P, cwd)) + "/" + f,
+                      os.path.join(P, "link", "up", "deep", f)]
+            if d == "sub":
+                S += [os.path.join(P, "link", "..", f),
+                      os.path.relpath(os.path.join(P, "link"), os.path.join(P, cwd) if cwd else P) + "/../" + f,
+                      os.path.join(P, "sub", "deep", "up", f)]
+            if d == "other":
+                S += [os.path.join(P, "sub", "abs", f), os.path.relpath(os.path.join(P, "sub"), os.path.join(P, cwd) if cwd else P) + "/abs/" + f]
+            if d == "":
+                S += [os.path.join(P, "sub", "..", f), os.path.join(P, "link", "..", "..", f)]
+            return S
+        hdir = common.build_harness()
+        impl = os.path.join(hdir, "pharness")
+        model = common.build_model()
+        base = P
+        keys = {}
+        for cwd in dirs:
+            acwd = os.path.join(P, cwd) if cwd else P
+            cases = []
+            for (d, f) in files:
+                for sp in spellings(cwd, d, f):
+                    cases.append(((d, f), sp))
+            lines = ["rel %s %s" % (hexs(sp), hexs(base)) for _, sp in cases]
+            pr = subprocess.run([impl], input=("\n".join(lines) + "\n").encode(), stdout=subprocess.PIPE, cwd=acwd, env=common.ENV, timeout=120)
+            iout = pr.stdout.decode().split("\n")[:len(lines)]
+            # canonicalize() table for the model: every directory prefix the model may ask about
+            mlines = []
+            for _, sp in cases:
+                ab = sp if sp.startswith("/") else acwd + "/" + sp
+                tbl = {}
+                for pth in (ab, base):
+                    dn = pth[:pth.rfind("/") + 1]
+                    if os.path.isdir(dn):
+                        tbl[dn] = os.path.realpath(dn)
+                mlines.append("relc %s %s %s %s" % (hexs(acwd), hexs(sp), hexs(base), " ".join("%s %s" % (hexs(k), hexs(v)) for k, v in tbl.items())))
+            mout = common.run_lines(model, mlines, shards=1)
+            for ((d, f), sp), io, mo, ml in zip(cases, iout, mout, mlines):
+                out["cases"] += 1
+                if io != mo:
+                    out["disagreements"].append({"case": "relpath(%r, base) from cwd %r" % (sp, cwd or "."), "model": mo, "impl": io})
+                truth = os.path.join(d, f) if d else f
+                if io in ("ERR", "PANIC") or unhex(io).decode() != truth:
+                    out["violations"].append({"oracle": "one-record (symlinked tree)", "cwd": cwd or ".", "spelling": sp,
+                                              "file": truth, "key_from_implementation": io if io in ("ERR", "PANIC") else unhex(io).decode(),
+                                              "tree": "link -> sub/deep ; sub/abs -> <P>/other ; sub/deep/up -> .."})
+                keys.setdefault(truth, set()).add(io)
+        out["same_file_pairs"] = sum(len(v) for v in keys.values())
+    finally:
+        shutil.rmtree(root, ignore_errors=True)
+    out["violations"] = out["violations"][:5]
+    out["disagreements"] = out["disagreements"][:5]
+    return out
 
 
 def replay(path):
